@@ -262,6 +262,89 @@ def _visit_step(kind: int, inst: int, target: int, action: int) -> bool:
     return result(ok, len(kids) > 0)
 
 
+# ---- the node itself is replaced by enter() AND one of its children is edited in the same pass (two edits at different depths)
+class RootReplacer(Recorder):
+    def __init__(self, root, root2, target, action, replacement):
+        super().__init__(target, action, replacement)
+        self.root, self.root2 = root, root2
+
+    def enter(self, node):
+        if node is self.root:
+            self.events.append(("enter", id(node)))
+            return self.root2
+        return super().enter(node)
+
+
+def _parent_replace(kind: int, inst: int, target: int, action: int, fresh: bool) -> bool:
+    """
+    pre: 0 <= kind < len(KINDS) and 0 <= inst < MAX_INST and 0 <= target < 12 and 0 <= action <= 3
+    pre: shard_of(kind)
+    post: _
+    """
+    K = pick(kind, KINDS)
+    J = concrete_int(inst, 0, MAX_INST - 1)
+    T = concrete_int(target, 0, 11)
+    a = concrete_int(action, 0, 3)
+    FR = True if fresh else False
+    with untraced():
+        if J >= len(_INST[K]):
+            return result(True, False)
+        node = get_instance(K, J)
+        # the replacement: a new object of the same kind that shares the children (shallow copy) or carries fresh, equal children (deep copy)
+        root2 = copy.deepcopy(node) if FR else copy.copy(node)
+        kids = [c for c in children_of(root2) if not known.c18_unvisited_slot(K, c[0])]
+        if T >= max(len(kids), 1) or (not kids and a != 0):
+            return result(True, False)
+        if a == 0 and T != 0:
+            return result(True, False)
+        tgt = kids[T][2] if kids else None
+        repl = make_replacement(tgt) if (a == 2 and tgt is not None) else None
+        before2 = copy.deepcopy(root2)
+        rec = RootReplacer(node, root2, tgt if a != 0 else None, a, repl)
+        ret = rec.visit(node)
+        interesting = {id(node): "old-self", id(root2): "self"}
+        for (slot, i, c) in kids:
+            interesting[id(c)] = (slot, i)
+        if repl is not None:
+            interesting[id(repl)] = "repl"
+        got = [(ev, interesting[i]) for (ev, i) in rec.events if i in interesting]
+        # enter sees the old node, everything after that happens on (and below) the node enter() returned
+        exp = [("enter", "old-self")]
+        for (slot, i, c) in kids:
+            exp.append(("enter", (slot, i)))
+            if c is tgt and a in (1, 3):
+                continue
+            exp.append(("leave", "repl" if (c is tgt and a == 2) else (slot, i)))
+        exp.append(("leave", "self"))
+        if known.c18_misordered_kind(K):
+            ok = sorted(map(repr, got)) == sorted(map(repr, exp)) and got[0] == exp[0] and got[-1] == exp[-1]
+        else:
+            ok = got == exp
+        ok = ok and ret is root2
+        if ok:
+            for slot in TABLE[K]:
+                if known.c18_unvisited_slot(K, slot):
+                    continue
+                old, new = getattr(before2, slot, None), getattr(root2, slot, None)
+                if isinstance(old, list):
+                    expected = []
+                    for i, c in enumerate(old):
+                        live = [k for k in kids if k[0] == slot and k[1] == i][0][2]
+                        if live is tgt and a == 1:
+                            continue
+                        expected.append(repl if (live is tgt and a == 2) else c)
+                    ok = ok and list(new or []) == expected
+                else:
+                    live = [k for k in kids if k[0] == slot]
+                    if live and live[0][2] is tgt and a == 1:
+                        ok = ok and new is None
+                    elif live and live[0][2] is tgt and a == 2:
+                        ok = ok and new is repl
+                    else:
+                        ok = ok and new == old
+    return result(ok, len(kids) > 0 and a != 0)
+
+
 class PlanRecorder(ASTVisitor):
     """applies one action per listed child: plan maps id(child) -> (action, replacement)"""
 
@@ -484,6 +567,12 @@ def _dispatch_total(kind: int) -> bool:
 
 
 CONDITIONS = [
+    Cond(
+        name="parent_replace", fn=_parent_replace, quick=60, thorough=200, per_path=30, shards_quick=16, shards_thorough=16,
+        bound="two edits at DIFFERENT depths in one pass: enter() replaces the node under test by a new object of the same kind (sharing its children, or carrying fresh equal children) and one of its direct children is kept / deleted / "
+              "replaced / skipped - every kind x instance x child x action: the traversal continues on the replacement (its children are entered and left once, in order), the child edit lands in the replacement, the replacement is what visit returns",
+        symbolic={"kind,inst,target,action": "choice", "fresh": "choice: shared / fresh children"}, witness={"kind": 0, "inst": 0, "target": 0, "action": 0, "fresh": False},
+    ),
     Cond(
         name="visit_step", fn=_visit_step, quick=120, thorough=400, per_path=30, shards_quick=14, shards_thorough=14,
         bound="one traversal step for each of the %d node kinds: up to %d parsed instances per kind (0/1/2 elements per list slot, optional slots present/absent), "
